@@ -354,3 +354,229 @@ Proof.
   assert (Hrep : pk_repr P pk rho (h_shake256 H pkb 64) t1) by (repeat split; try assumption; apply R).
   split; [|exact Hrep]. rewrite (pk_into_bytes_repr P pk _ _ _ Hrep). exact Eenc.
 Qed.
+
+(* ---------- the other direction: decoding an encoding ---------- *)
+Lemma zslice_pre {A} (pre l : list A) a b : zlen pre <= a -> zslice a b (pre ++ l) = zslice (a - zlen pre) (b - zlen pre) l.
+Proof.
+  intros Ha. unfold zslice, ztake, zdrop, zlen in *. rewrite skipn_app.
+  rewrite (skipn_all2 pre) by lia. cbn [app]. f_equal; [lia|]. f_equal. lia.
+Qed.
+Lemma zslice_chunk_nth {A} (step : Z) (post : list A) : 0 <= step -> forall (bs : list (list A)) (i : nat),
+  Forall (fun v => zlen v = step) bs -> (i < length bs)%nat ->
+  zslice (Z.of_nat i * step) ((Z.of_nat i + 1) * step) (concat bs ++ post) = nth i bs [].
+Proof.
+  intros Hs. induction bs as [|v bs IH]; intros i Hb Hi; [cbn in Hi; lia|]. apply Forall_cons_iff in Hb as [Hv Hb'].
+  cbn [concat]. rewrite <- app_assoc. destruct i as [|i].
+  - cbn [nth]. change (Z.of_nat 0) with 0. rewrite Z.mul_0_l. unfold zslice, ztake, zdrop, zlen. cbn [Z.to_nat skipn].
+    replace (Z.to_nat ((0 + 1) * step - 0)) with (length v + 0)%nat by (unfold zlen in Hv; lia).
+    rewrite firstn_app_2. cbn [firstn]. apply app_nil_r.
+  - cbn [nth]. rewrite zslice_pre by (rewrite Hv; lia). rewrite Hv.
+    replace (Z.of_nat (S i) * step - step) with (Z.of_nat i * step) by lia.
+    replace ((Z.of_nat (S i) + 1) * step - step) with ((Z.of_nat i + 1) * step) by lia.
+    apply IH; [exact Hb'|cbn in Hi; lia].
+Qed.
+Lemma mapM_seq_nth {B} (f : nat -> res B) (v : list B) (d : B) :
+  (forall i, (i < length v)%nat -> f i = Ok (nth i v d)) -> mapM f (seq 0 (length v)) = Ok v.
+Proof.
+  revert f. induction v as [|x v IH]; intros f Hf; [reflexivity|]. cbn [length seq mapM].
+  rewrite (Hf 0%nat) by (cbn; lia). cbn [nth bind]. rewrite <- seq_shift.
+  assert (E : mapM f (map S (seq 0 (length v))) = mapM (fun i => f (S i)) (seq 0 (length v))).
+  { generalize (seq 0 (length v)). intros l. induction l as [|a l IHl]; [reflexivity|]. cbn [map mapM]. rewrite IHl. reflexivity. }
+  rewrite E, (IH (fun i => f (S i))); [reflexivity|]. intros i Hi. apply (Hf (S i)). cbn. lia.
+Qed.
+
+(* encoding a section of in-range polynomials and reading it back from any enclosing byte string *)
+Lemma section_encode a b (v : list (list Z)) : valid_ab a b ->
+  Forall (fun p => length p = 256%nat /\ Forall (fun e => - a <= e <= b) p) v ->
+  exists bs, mapM (fun p => bit_pack p a b (32 * bitlen (a + b))) v = Ok bs /\ length bs = length v
+    /\ Forall (fun c => zlen c = 32 * bitlen (a + b) /\ bytes_ok c) bs
+    /\ forall pre post start, zlen pre = start ->
+         mapM (fun i => let i := Z.of_nat i in
+                 bit_unpack (zslice (start + i * (32 * bitlen (a + b))) (start + (i + 1) * (32 * bitlen (a + b))) (pre ++ concat bs ++ post)) a b)
+              (seq 0 (length v)) = Ok v.
+Proof.
+  intros Hab Hv.
+  assert (Hbs : exists bs, mapM (fun p => bit_pack p a b (32 * bitlen (a + b))) v = Ok bs
+            /\ Forall2 (fun p c => bit_unpack c a b = Ok p /\ zlen c = 32 * bitlen (a + b) /\ bytes_ok c) v bs).
+  { induction Hv as [|p v [Lp Rp] Hv (bs & Ebs & Fbs)]; [exists []; split; [reflexivity|constructor]|].
+    destruct (bit_pack_unpack a b p Hab Lp (proj2 (in_range_forall _ _ _) Rp)) as (c & Ec & Eu & Bc & Lc).
+    exists (c :: bs). cbn [mapM]. rewrite Ec. cbn [bind]. rewrite Ebs. cbn [bind]. split; [reflexivity|]. constructor; [|exact Fbs]. repeat split; assumption. }
+  destruct Hbs as (bs & Ebs & Fbs). exists bs. split; [exact Ebs|].
+  assert (Hlen : length bs = length v) by (symmetry; apply (Forall2_length _ _ _ Fbs)). split; [exact Hlen|]. split.
+  - clear - Fbs. induction Fbs as [|p c v bs (_ & Hl & Hb) Fbs IH]; constructor; [split; assumption|exact IH].
+  - intros pre post start Hpre. apply (mapM_seq_nth _ v []). intros i Hi. cbv zeta.
+    rewrite zslice_pre by (pose proof (bitlen_ab a b Hab); lia). rewrite Hpre.
+    replace (start + Z.of_nat i * (32 * bitlen (a + b)) - start) with (Z.of_nat i * (32 * bitlen (a + b))) by lia.
+    replace (start + (Z.of_nat i + 1) * (32 * bitlen (a + b)) - start) with ((Z.of_nat i + 1) * (32 * bitlen (a + b))) by lia.
+    rewrite zslice_chunk_nth; [| pose proof (bitlen_ab a b Hab); lia | | lia].
+    + clear - Fbs Hi. revert i Hi. induction Fbs as [|p c v bs (Hu & _) Fbs IH]; intros i Hi; [cbn in Hi; lia|].
+      destruct i as [|i]; [exact Hu|]. cbn [nth]. apply IH. cbn in Hi. lia.
+    + clear - Fbs. induction Fbs as [|p c v bs (_ & Hl & _) Fbs IH]; constructor; assumption.
+Qed.
+
+Lemma concat_zlen {A} (bs : list (list A)) step : Forall (fun c => zlen c = step) bs -> zlen (concat bs) = Z.of_nat (length bs) * step.
+Proof.
+  intros H. induction H as [|c bs Hc H IH]; [reflexivity|]. cbn [concat length]. unfold zlen in *. rewrite app_length. lia.
+Qed.
+Lemma concat_bytes_ok (bs : list bytes) : Forall bytes_ok bs -> bytes_ok (concat bs).
+Proof. intros H. induction H; cbn [concat]; [constructor|]. apply Forall_app. split; assumption. Qed.
+Lemma zslice_app_l {A} (x y : list A) a b : 0 <= a -> b <= zlen x -> zslice a b (x ++ y) = zslice a b x.
+Proof.
+  intros Ha Hb. unfold zslice, ztake, zdrop, zlen in *. rewrite skipn_app.
+  destruct (Z_le_gt_dec a b) as [Hab|Hab].
+  - rewrite firstn_app. replace (Z.to_nat (b - a) - length (skipn (Z.to_nat a) x))%nat with 0%nat by (rewrite skipn_length; lia).
+    cbn [firstn]. apply app_nil_r.
+  - replace (Z.to_nat (b - a)) with 0%nat by lia. reflexivity.
+Qed.
+
+Theorem sk_decode_encode P rho k tr s1 s2 t0 : In P all_params ->
+  zlen rho = 32 -> zlen k = 32 -> zlen tr = 64 -> bytes_ok rho -> bytes_ok k -> bytes_ok tr ->
+  rvec (p_eta P) (p_eta P) (p_l P) s1 -> rvec (p_eta P) (p_eta P) (p_k P) s2 -> rvec 4095 4096 (p_k P) t0 ->
+  exists skb, sk_encode P rho k tr s1 s2 t0 = Ok skb /\ bytes_ok skb /\ zlen skb = p_sk_len P
+              /\ sk_decode P skb = Ok (rho, k, tr, s1, s2, t0).
+Proof.
+  intros HP Lr Lk Lt Br Bk Bt [R1 L1] [R2 L2] [R3 L3].
+  destruct (params_facts P HP) as (Heta & Hab & _ & Hform & Hl & Hk & Htot).
+  assert (Hstep : bitlen (2 * p_eta P) = bitlen (p_eta P + p_eta P)) by (f_equal; lia).
+  assert (Hab0 : valid_ab (TOP - 1) TOP) by (change (TOP - 1) with 4095; change TOP with 4096; unfold valid_ab; lia).
+  destruct (section_encode _ _ s1 Hab R1) as (b1 & E1 & N1 & C1 & D1).
+  destruct (section_encode _ _ s2 Hab R2) as (b2 & E2 & N2 & C2 & D2).
+  change 4095 with (TOP - 1) in R3. change 4096 with TOP in R3.
+  destruct (section_encode _ _ t0 Hab0 R3) as (b3 & E3 & N3 & C3 & D3).
+  set (st := 32 * bitlen (p_eta P + p_eta P)) in *.
+  assert (Hst : 0 <= st) by (unfold st; pose proof (bitlen_ab _ _ Hab); lia).
+  assert (Z1 : zlen (concat b1) = lz P * st).
+  { rewrite (concat_zlen b1 st) by (eapply Forall_impl; [|exact C1]; intros c Hc; apply Hc). rewrite N1, L1. reflexivity. }
+  assert (Z2 : zlen (concat b2) = kz P * st).
+  { rewrite (concat_zlen b2 st) by (eapply Forall_impl; [|exact C2]; intros c Hc; apply Hc). rewrite N2, L2. reflexivity. }
+  assert (Z3 : zlen (concat b3) = kz P * (32 * D)).
+  { rewrite (concat_zlen b3 (32 * bitlen (TOP - 1 + TOP))) by (eapply Forall_impl; [|exact C3]; intros c Hc; apply Hc). rewrite N3, L3. reflexivity. }
+  exists (rho ++ k ++ tr ++ concat b1 ++ concat b2 ++ concat b3).
+  assert (Hlen : zlen (rho ++ k ++ tr ++ concat b1 ++ concat b2 ++ concat b3) = p_sk_len P).
+  { unfold zlen in *. rewrite !app_length. rewrite Htot. fold st. lia. }
+  split; [|split; [|split; [exact Hlen|]]].
+  - unfold sk_encode.
+    replace ((p_eta P =? 2) || (p_eta P =? 4)) with true by (destruct Heta as [E|E]; rewrite E; reflexivity).
+    rewrite (in_range_vec _ _ _ R1), (in_range_vec _ _ _ R2), (in_range_vec _ _ _ R3), Hform, Z.eqb_refl. cbn [guard bind].
+    rewrite Hstep. fold st. rewrite E1. cbn [bind]. rewrite E2. cbn [bind].
+    change (32 * D) with (32 * bitlen (TOP - 1 + TOP)). rewrite E3. reflexivity.
+  - repeat (apply Forall_app; split); try assumption; apply concat_bytes_ok.
+    + eapply Forall_impl; [|exact C1]; intros c Hc; apply Hc.
+    + eapply Forall_impl; [|exact C2]; intros c Hc; apply Hc.
+    + eapply Forall_impl; [|exact C3]; intros c Hc; apply Hc.
+  - unfold sk_decode.
+    replace ((p_eta P =? 2) || (p_eta P =? 4)) with true by (destruct Heta as [E|E]; rewrite E; reflexivity).
+    rewrite Hform, Z.eqb_refl. cbn [guard bind]. rewrite Hstep. fold st.
+    set (skb := rho ++ k ++ tr ++ concat b1 ++ concat b2 ++ concat b3) in *.
+    assert (S1 : skb = (rho ++ k ++ tr) ++ concat b1 ++ (concat b2 ++ concat b3)) by (unfold skb; rewrite <- !app_assoc; reflexivity).
+    assert (S2 : skb = (rho ++ k ++ tr ++ concat b1) ++ concat b2 ++ concat b3) by (unfold skb; rewrite <- !app_assoc; reflexivity).
+    assert (S3 : skb = (rho ++ k ++ tr ++ concat b1 ++ concat b2) ++ concat b3 ++ []) by (unfold skb; rewrite app_nil_r, <- !app_assoc; reflexivity).
+    match goal with |- context [mapM ?f (seq 0 (p_l P))] => assert (M1 : mapM f (seq 0 (p_l P)) = Ok s1) end.
+    { rewrite S1, <- L1. apply (D1 (rho ++ k ++ tr) (concat b2 ++ concat b3) 128). unfold zlen in *; rewrite !app_length; lia. }
+    rewrite M1. cbn [bind].
+    match goal with |- context [mapM ?f (seq 0 (p_k P))] => assert (M2 : mapM f (seq 0 (p_k P)) = Ok s2) end.
+    { rewrite S2, <- L2. apply (D2 (rho ++ k ++ tr ++ concat b1) (concat b3) (128 + lz P * st)). unfold zlen in *; rewrite !app_length; lia. }
+    rewrite M2. cbn [bind]. change (32 * D) with (32 * bitlen (TOP - 1 + TOP)).
+    match goal with |- context [mapM ?f (seq 0 (p_k P))] => assert (M3 : mapM f (seq 0 (p_k P)) = Ok t0) end.
+    { rewrite S3, <- L3. apply (D3 (rho ++ k ++ tr ++ concat b1 ++ concat b2) [] (128 + lz P * st + kz P * st)). unfold zlen in *; rewrite !app_length; lia. }
+    rewrite M3. cbn [bind].
+    rewrite Hlen, Htot. rewrite Hstep. fold st. change (32 * bitlen (TOP - 1 + TOP)) with (32 * D). rewrite Z.eqb_refl. cbn [guard bind].
+    assert (Q1 : zslice 0 32 skb = rho).
+    { unfold skb. rewrite zslice_app_l by lia. rewrite <- Lr. apply zslice_all. }
+    assert (Q2 : zslice 32 64 skb = k).
+    { unfold skb. rewrite zslice_pre by lia. rewrite Lr. rewrite zslice_app_l by lia. replace (64 - 32) with (zlen k) by lia. replace (32 - 32) with 0 by lia. apply zslice_all. }
+    assert (Q3 : zslice 64 128 skb = tr).
+    { unfold skb. rewrite zslice_pre by lia. rewrite Lr. rewrite zslice_pre by lia. rewrite Lk. rewrite zslice_app_l by lia.
+      replace (128 - 32 - 32) with (zlen tr) by lia. replace (64 - 32 - 32) with 0 by lia. apply zslice_all. }
+    rewrite Q1, Q2, Q3. reflexivity.
+Qed.
+
+Theorem pk_decode_encode P rho t1 : In P all_params -> zlen rho = 32 -> bytes_ok rho -> rvec 0 1023 (p_k P) t1 ->
+  exists pkb, pk_encode P rho t1 = Ok pkb /\ bytes_ok pkb /\ zlen pkb = p_pk_len P /\ pk_decode P pkb = Ok (rho, t1).
+Proof.
+  intros HP Lr Br [R L].
+  assert (Hk : p_pk_len P = 32 + 32 * kz P * BLQD /\ 0 <= kz P <= 8) by (destruct HP as [<-|[<-|[<-|[]]]]; (split; [reflexivity|unfold kz; cbn; lia])).
+  destruct Hk as [Hpk Hkr].
+  assert (Hab : valid_ab 0 T1MAX) by (change T1MAX with 1023; unfold valid_ab; lia).
+  change 1023 with T1MAX in R.
+  destruct (section_encode 0 T1MAX t1 Hab R) as (bs & E & N & C & Dd).
+  change (32 * bitlen (0 + T1MAX)) with 320 in *.
+  assert (Z1 : zlen (concat bs) = kz P * 320).
+  { rewrite (concat_zlen bs 320) by (eapply Forall_impl; [|exact C]; intros c Hc; apply Hc). rewrite N, L. reflexivity. }
+  exists (rho ++ concat bs).
+  assert (Hlen : zlen (rho ++ concat bs) = p_pk_len P) by (unfold zlen in *; rewrite app_length, Hpk; change BLQD with 10; lia).
+  split; [|split; [|split; [exact Hlen|]]].
+  - unfold pk_encode. rewrite (in_range_vec _ _ _ R), Hpk, Z.eqb_refl. cbn [guard bind].
+    assert (E' : mapM (fun t => simple_bit_pack t T1MAX (32 * BLQD)) t1 = Ok bs).
+    { rewrite <- E. apply mapM_ext_in. intros p Hp. unfold simple_bit_pack. change ((1 <=? T1MAX) && (T1MAX <? 1048576)) with true.
+      rewrite Forall_forall in R. destruct (R p Hp) as [_ Hr]. replace (is_in_range p 0 T1MAX) with true by (symmetry; apply in_range_forall; exact Hr).
+      change (32 * BLQD =? 32 * bitlen T1MAX) with true. cbn [guard bind]. reflexivity. }
+    rewrite E'. reflexivity.
+  - apply Forall_app. split; [exact Br|]. apply concat_bytes_ok. eapply Forall_impl; [|exact C]; intros c Hc; apply Hc.
+  - unfold pk_decode. rewrite Hlen, Hpk, Z.eqb_refl. cbn [guard bind].
+    match goal with |- context [mapM ?f (seq 0 (p_k P))] => assert (M : mapM f (seq 0 (p_k P)) = Ok t1) end.
+    { rewrite <- L. rewrite <- (Dd rho [] 32 Lr). rewrite app_nil_r. apply mapM_ext_in. intros i Hi. apply in_seq in Hi. cbv zeta.
+      replace (32 + 32 * Z.of_nat i * BLQD) with (32 + Z.of_nat i * 320) by (change BLQD with 10; lia).
+      replace (32 + 32 * (Z.of_nat i + 1) * BLQD) with (32 + (Z.of_nat i + 1) * 320) by (change BLQD with 10; lia).
+      unfold simple_bit_unpack. change ((1 <=? T1MAX) && (T1MAX <? 1048576)) with true. cbn [guard bind].
+      replace (zlen (zslice (32 + Z.of_nat i * 320) (32 + (Z.of_nat i + 1) * 320) (rho ++ concat bs)) =? 32 * bitlen T1MAX) with true; [reflexivity|].
+      symmetry. apply Z.eqb_eq. unfold zlen. rewrite zslice_length; [change (32 * bitlen T1MAX) with 320; lia|lia|].
+      rewrite Hlen, Hpk. change BLQD with 10. unfold kz. lia. }
+    rewrite M. cbn [bind]. change T1MAX with 1023 in *. rewrite (in_range_vec _ _ _ R). cbn [guard bind].
+    f_equal. f_equal. rewrite zslice_app_l by lia. rewrite <- Lr. apply zslice_all.
+Qed.
+
+(* ---------- C09, converse: a key built from in-range components survives a serialise/deserialise round trip unchanged ---------- *)
+Definition sk_of (rho k tr : bytes) (s1 s2 t0 : list (list Z)) : res PrivateKey :=
+  a <- ntt_mont s1 ;; b <- ntt_mont s2 ;; c <- ntt_mont t0 ;; Ok (mkSK rho k tr a b c).
+Definition pk_of (rho tr : bytes) (t1 : list (list Z)) : res PublicKey :=
+  a <- t1_precompute t1 ;; Ok (mkPK rho tr a).
+
+Lemma sk_of_repr P rho k tr s1 s2 t0 key : In P all_params ->
+  rvec (p_eta P) (p_eta P) (p_l P) s1 -> rvec (p_eta P) (p_eta P) (p_k P) s2 -> rvec 4095 4096 (p_k P) t0 ->
+  sk_of rho k tr s1 s2 t0 = Ok key -> sk_repr P key rho k tr s1 s2 t0.
+Proof.
+  intros HP R1 R2 R3 E. destruct (build_sk_repr P rho k tr s1 s2 t0 HP R1 R2 R3) as (a & b & c & Ea & Eb & Ec & Hrep).
+  unfold sk_of in E. rewrite Ea, Eb, Ec in E. cbn [bind] in E. injection E as <-. exact Hrep.
+Qed.
+Lemma pk_of_repr P rho tr t1 pk : rvec 0 1023 (p_k P) t1 -> pk_of rho tr t1 = Ok pk -> pk_repr P pk rho tr t1.
+Proof.
+  intros R E. destruct (build_pk_repr P rho tr t1 R) as (a & Ea & Hrep). unfold pk_of in E. rewrite Ea in E. cbn [bind] in E. injection E as <-. exact Hrep.
+Qed.
+
+Theorem sk_struct_roundtrip P rho k tr s1 s2 t0 key : In P all_params ->
+  zlen rho = 32 -> zlen k = 32 -> zlen tr = 64 -> bytes_ok rho -> bytes_ok k -> bytes_ok tr ->
+  rvec (p_eta P) (p_eta P) (p_l P) s1 -> rvec (p_eta P) (p_eta P) (p_k P) s2 -> rvec 4095 4096 (p_k P) t0 ->
+  sk_of rho k tr s1 s2 t0 = Ok key ->
+  exists skb, sk_into_bytes P key = Ok skb /\ bytes_ok skb /\ zlen skb = p_sk_len P /\ sk_try_from_bytes P skb = Ok key.
+Proof.
+  intros HP Lr Lk Lt Br Bk Bt R1 R2 R3 E.
+  destruct (sk_decode_encode P rho k tr s1 s2 t0 HP Lr Lk Lt Br Bk Bt R1 R2 R3) as (skb & Ee & Bs & Ls & Ed).
+  exists skb. split; [|split; [exact Bs|split; [exact Ls|]]].
+  - rewrite (sk_into_bytes_repr P key _ _ _ _ _ _ HP (sk_of_repr P _ _ _ _ _ _ key HP R1 R2 R3 E)). exact Ee.
+  - unfold sk_try_from_bytes, expand_private. rewrite Ed. cbn [bind]. exact E.
+Qed.
+
+Theorem pk_struct_roundtrip H P rho t1 pk : In P all_params -> zlen rho = 32 -> bytes_ok rho -> rvec 0 1023 (p_k P) t1 ->
+  (forall pkb, pk_encode P rho t1 = Ok pkb -> pk_of rho (h_shake256 H pkb 64) t1 = Ok pk) ->
+  exists pkb, pk_into_bytes P pk = Ok pkb /\ bytes_ok pkb /\ zlen pkb = p_pk_len P /\ pk_try_from_bytes H P pkb = Ok pk.
+Proof.
+  intros HP Lr Br R E.
+  destruct (pk_decode_encode P rho t1 HP Lr Br R) as (pkb & Ee & Bs & Ls & Ed).
+  specialize (E pkb Ee). exists pkb. split; [|split; [exact Bs|split; [exact Ls|]]].
+  - rewrite (pk_into_bytes_repr P pk _ _ _ (pk_of_repr P _ _ _ pk R E)). exact Ee.
+  - unfold pk_try_from_bytes, expand_public. rewrite Ed. cbn [bind]. exact E.
+Qed.
+
+Lemma sk_len_ge P : In P all_params -> 128 <= p_sk_len P.
+Proof. intros [<-|[<-|[<-|[]]]]; cbn; lia. Qed.
+Lemma sk_decode_byte_fields P skb rho k tr s1 s2 t0 : In P all_params -> zlen skb = p_sk_len P ->
+  sk_decode P skb = Ok (rho, k, tr, s1, s2, t0) -> zlen rho = 32 /\ zlen k = 32 /\ zlen tr = 64.
+Proof.
+  intros HP Hl Ed. pose proof (sk_len_ge P HP) as Hg. unfold sk_decode in Ed.
+  repeat match type of Ed with
+         | bind (guard ?c _) _ = Ok _ => destruct c; cbn [guard bind] in Ed; try discriminate
+         | bind ?m _ = Ok _ => destruct m; cbn [bind] in Ed; try discriminate
+         end.
+  injection Ed as <- <- <- _ _ _. unfold zlen. rewrite !zslice_length by lia. repeat split; lia.
+Qed.
